@@ -25,7 +25,7 @@ def run(L, rep, tier, seed):
         fr = FRAMINGS[ctx.choose(len(FRAMINGS), 'framing')]
         co = CONSUME[ctx.choose(len(CONSUME), 'consume')]
         fin = FINISH[ctx.choose(len(FINISH), 'finish')]
-        data, body, declared, end, headlen = build_request(ctx, fr, tier)
+        data, body, declared, end, headlen = build_request(ctx, fr, tier, concrete_body=True)
         nb = len(body)
         seg = 'choose' if (fr == 'cl-small' or (fr == 'cl-1025' and co in ('none', 'one-byte'))) and ctx.choose(2, 'segmented') else False
         cv = Conv(S, ctx, data, end='eof', short_reads=seg)
@@ -71,7 +71,10 @@ def run(L, rep, tier, seed):
             r2 = cv.settle()
         label = ('chunked-body-left-unread' if (fr.startswith('chunked') and co != 'all-eof') else 'next-request-starts-after-body')
         if r2 is not None and r2 is not PARKED:
-            ctx.check_always(slice_eq_exprs(cv.summary(r2)['url'], K(b'/n')), label, sc)
+            s2 = cv.summary(r2)
+            whole_req = z3.And(slice_eq_exprs(s2['url'], K(b'/n')), z3.BoolVal(isinstance(s2['method'], Enum) and s2['method'].variant == 'Get'),
+                               z3.BoolVal(len(s2['headers']) == 1), s2['version'].fields[0] == 1, s2['version'].fields[1] == 1)
+            ctx.check_always(whole_req, label, sc)
         else:
             ctx.check_always(z3.BoolVal(False), label, sc)
         return True
